@@ -259,9 +259,20 @@ ExportFails(e) ==
                                              /\ e.json_nodes[n][4] = nodes[n].d
       J3 == e.json_ok => /\ \A tr \in REdges : JCount(tr) = 1
                          /\ \A i \in 1..Len(e.json_links) : JT(e.json_links[i]) \in REdges
-  IN {c \in {"G1", "G2", "G3", "G4", "G5", "J1", "J2", "J3"} :
+      \* DOT export (beyond the listed properties; reported, never a verdict): every node once with its length, one arrow per
+      \* reported edge of either side - into the node for a left edge, out of it for a right edge - coloured by arrival side
+      Col(side) == IF side = "L" THEN "blue" ELSE "red"
+      DotWant == UNION {{<<t[1] - 1, u - 1, Col(t[2])>> : t \in EdgeSetOf(K, st, nodes, u, "L")} \cup
+                        {<<u - 1, t[1] - 1, Col(t[2])>> : t \in EdgeSetOf(K, st, nodes, u, "R")} : u \in 1..NN}
+      DotN(u) == Cardinality(EdgeSetOf(K, st, nodes, u, "L")) + Cardinality(EdgeSetOf(K, st, nodes, u, "R"))
+      DotCount == SumOver(DotN, 1..NN)
+      D1x == /\ e.dot_other_lines = 0 /\ Len(e.dot_nodes) = NN
+             /\ \A n \in 1..NN : e.dot_nodes[n] = <<n - 1, Len(nodes[n].s)>>
+             /\ {<<e.dot_edges[i][1], e.dot_edges[i][2], e.dot_edges[i][3]>> : i \in 1..Len(e.dot_edges)} = DotWant
+             /\ Len(e.dot_edges) = DotCount
+  IN {c \in {"G1", "G2", "G3", "G4", "G5", "J1", "J2", "J3", "D1x"} :
         ~(CASE c = "G1" -> G1 [] c = "G2" -> G2 [] c = "G3" -> G3 [] c = "G4" -> G4 [] c = "G5" -> G5
-            [] c = "J1" -> J1 [] c = "J2" -> J2 [] c = "J3" -> J3)}
+            [] c = "J1" -> J1 [] c = "J2" -> J2 [] c = "J3" -> J3 [] c = "D1x" -> D1x)}
 
 SerdeFails(e) ==
   IF e.panic # "" THEN {"PANIC"} ELSE
